@@ -377,6 +377,8 @@ LOSSY_HISTORIES = [
     ['create-metric', 'delete(NEW)', 'update-cond-signaled+create-metric'],
     ['create-metric', 'delete(NEW)', 'update-alert-source+create-metric'],
     ['create-metric', 'delete(NEW)', 'create-metric', 'update-cond-signaled'],
+    # the consumer still has the signal (its delete report was lost) when it is created again for another condition
+    ['create-signal(ac)', 'delete(NEWSIG)', 'create-signal(ac2)'],
     ['update-cond-signaled', 'create-channel+metric', 'delete(ch1)', 'update-alert-source'],
     ['patient-new(A)', 'update-context-descr', 'patient-new(B)', 'delete(PAT)'],
 ]
@@ -436,8 +438,8 @@ def run(ctx):
     hjobs = hist.sequences(names, 2) if ctx.quick else hist.sequences(names, 2) + hist.sequences(names[10:], 3)
     ctx.note('mdib_histories', len(hjobs))
     ctx.pmap(_work_mdib, ctx.rotate(hjobs))
-    ctx.pmap(_work_lossy, ctx.rotate(LOSSY_HISTORIES[:3] if ctx.quick else LOSSY_HISTORIES), chunksize=1)
-    ctx.note('lossy_histories', 3 if ctx.quick else len(LOSSY_HISTORIES))
+    ctx.pmap(_work_lossy, ctx.rotate(LOSSY_HISTORIES[:4] if ctx.quick else LOSSY_HISTORIES), chunksize=1)
+    ctx.note('lossy_histories', 4 if ctx.quick else len(LOSSY_HISTORIES))
     from mcx.checks import c11_sched
     c11_sched.run(ctx)
     ctx.assumptions.append('an attribute write on a stored object is always followed by update_object (the documented usage); '
